@@ -1,8 +1,8 @@
 //! C17 sequential: exhaustive small op sequences + random long ones on the real
 //! `egglog_union_find::UnionFind<usize>`; property predicates evaluated on the implementation;
 //! cases written for the translated Coq model.
-use crate::util::*;
-use crate::Opts;
+use verif_harness::util::*;
+use verif_harness::Opts;
 use egglog_union_find::UnionFind;
 use std::collections::{BTreeMap, HashSet};
 
@@ -144,6 +144,11 @@ fn all_ops(nids: usize) -> Vec<Op> {
     }
     v.push(Op::Reset);
     v
+}
+
+fn main() {
+    let o = verif_harness::parse_opts();
+    std::process::exit(run(&o));
 }
 
 pub fn run(o: &Opts) -> i32 {
